@@ -364,4 +364,4 @@ def run_shard(ctx):
                 pass
         return t
 
-    ctx.run_given(mk, ctx.budget(6000, 120000))
+    ctx.run_given(mk, ctx.budget(6000, 70000))
